@@ -329,7 +329,9 @@ func (d *Dynamic) insertChildren(ctx vxfw.DrawContext, p *vxfw.Surface, ah int) 
 		ss := vxfw.NewSubSurface(colOffset, ah, s)
 		p.Children = slices.Insert(p.Children, 0, ss)
 
-		if d.scroll.top == 0 {
+		if d.scroll.top == 0 || ah <= 0 {
+			// No more widgets, or none needed: top stays the index
+			// of the first child
 			break
 		}
 
